@@ -30,8 +30,12 @@ use std::cmp::min;
 use std::io;
 use std::marker::PhantomData;
 use std::mem::{align_of, size_of};
+#[cfg(not(vm_memory_verif))]
 use std::ptr::copy;
+#[cfg(not(vm_memory_verif))]
 use std::ptr::{read_volatile, write_volatile};
+#[cfg(vm_memory_verif)]
+use crate::verif::{copy, read_volatile, write_volatile};
 use std::result;
 use std::sync::atomic::Ordering;
 
@@ -212,6 +216,8 @@ pub trait VolatileMemory {
         // of this function ensure that no aliasing pointers exist. Lastly, the lifetime of the
         // returned VolatileArrayRef match that of the VolatileSlice returned by get_slice and thus the
         // lifetime one `self`.
+        #[cfg(vm_memory_verif)]
+        crate::verif::touch(slice.addr as usize, size_of::<T>(), false);
         unsafe { Ok(&*(slice.addr as *const T)) }
     }
 
@@ -246,6 +252,8 @@ pub trait VolatileMemory {
         // returned VolatileArrayRef match that of the VolatileSlice returned by get_slice and thus the
         // lifetime one `self`.
 
+        #[cfg(vm_memory_verif)]
+        crate::verif::touch(slice.addr as usize, size_of::<T>(), true);
         unsafe { Ok(&mut *(slice.addr as *mut T)) }
     }
 
@@ -273,6 +281,8 @@ pub trait VolatileMemory {
         // Dereferencing the pointer is safe because we check the alignment above. Lastly, the lifetime of the
         // returned VolatileArrayRef match that of the VolatileSlice returned by get_slice and thus the
         // lifetime one `self`.
+        #[cfg(vm_memory_verif)]
+        crate::verif::touch(slice.addr as usize, size_of::<T>(), true);
         unsafe { Ok(&*(slice.addr as *const T)) }
     }
 
@@ -1397,8 +1407,13 @@ pub(crate) mod copy_slice_impl {
             //   invariant
             // - src and dst are properly aligned, as any alignment is valid for u8
             // - The regions are not overlapping by function invariant
+            #[cfg(not(vm_memory_verif))]
             unsafe {
                 std::ptr::copy_nonoverlapping(src, dst, total);
+            }
+            #[cfg(vm_memory_verif)]
+            unsafe {
+                crate::verif::bulk_copy(dst, src, total);
             }
         }
 
